@@ -151,10 +151,14 @@ def hmc_reference_cases(tier):
             for (nw, nm, tw) in ((0, 4, False), (3, 3, True), (3, 3, False)):
                 cases.append(dict(sampler=sampler, n_process=n_process, n_warm=nw, n_main=nm, trace_warm_up=tw,
                                   nchain=2, force_memmap=(n_process == 1 and nw == 0)))
-    return cases if tier == "thorough" else cases[::2] + cases[1:2]
+    cases = cases if tier == "thorough" else cases[::2] + cases[1:2]
+    # the windowed stager given explicitly (also with nothing to adapt), warm-up traced
+    cases.append(dict(sampler="static", n_process=1, n_warm=7, n_main=3, trace_warm_up=True, nchain=2, force_memmap=False, stager="windowed"))
+    cases.append(dict(sampler="static", n_process=2, n_warm=4, n_main=2, trace_warm_up=False, nchain=2, force_memmap=False, stager="windowed"))
+    return cases
 
 
-def hmc_vs_reference(*, sampler, n_process, n_warm, n_main, trace_warm_up, nchain, force_memmap, seed=11):
+def hmc_vs_reference(*, sampler, n_process, n_warm, n_main, trace_warm_up, nchain, force_memmap, seed=11, stager=None):
     """Run the real sampler without adapters and an independent plain loop over the same transitions
     and per-chain generators; returns None or (kind, description)."""
     import logging
@@ -180,9 +184,10 @@ def hmc_vs_reference(*, sampler, n_process, n_warm, n_main, trace_warm_up, nchai
     system, smp = build()
     with warnings.catch_warnings():
         warnings.simplefilter("ignore")
+        stg = mici.stagers.WindowedWarmUpStager() if stager == "windowed" else None
         out = smp.sample_chains(n_warm, n_main, [x.copy() for x in init], adapters=[], n_process=n_process,
                                 trace_funcs=[E._IntrTrace(0)], trace_warm_up=trace_warm_up, display_progress=False,
-                                force_memmap=force_memmap)
+                                force_memmap=force_memmap, stager=stg)
     # reference
     system2, smp2 = build()
     states = []
